@@ -1083,7 +1083,7 @@ func (ds *AnySource) ChannelNames() []string {
 func (ds *AnySource) ConfigurePulseLengths(nsamp, npre int) error {
 	if npre < 3 || // edgeTrigger looks at npre-3
 		nsamp < 1 || // require at least 1 sample
-		nsamp < npre+1 { // require at least one post trigger sample
+		nsamp <= npre { // require at least one post trigger sample (not "nsamp < npre+1": that overflows for huge npre)
 		return fmt.Errorf("ConfigurePulseLengths nsamp %v, npre %v are invalid", nsamp, npre)
 	}
 	// Record lengths are kept as int32 in the trigger state, and streams are trimmed to 2*nsamp+10 samples:
